@@ -10,6 +10,7 @@ from .world import POL1, FOCK1, CUST1, COMP
 
 TOL = 1e-6
 PTOL = 1e-6
+TOL_TRUNC = 5e-3   # |delta rho| allowed for Displace / Squeeze: state fidelity 1-1e-5 <=> entries off by up to ~3e-3
 IDENTITY_OPS = ("I", "FIdentity", "XID")
 IDENT_CHANNELS = ("ident",)
 
@@ -350,7 +351,10 @@ def judge(T):
             V.append(_viol("C07", "shape", T, "unreadable", why))
     else:
         d = _cmp(rho, ref.rho)
-        if d > TOL:
+        tol_here = TOL
+        if kind == "op" and a[3] in ("Displace", "Squeeze"):
+            tol_here = TOL_TRUNC      # judged against the documented truncation threshold (C10), not exactly
+        if d > tol_here:
             prop, clause = _owner_map(a)
             # classify the mismatch a bit: normalisation only?
             tr = float(np.trace(rho).real)
